@@ -183,6 +183,34 @@ func famT2(maxM int, shortM int, yield func(f [][]int, n int) bool) bool {
 	return true
 }
 
+// famD3 "dirty clause under parse-time propagation": n=3, one clause that is any literal
+// sequence of length 1..maxLen (duplicates, tautologies, every order), together with every
+// sequence of 0..2 unit clauses, the units placed before and after the clause.
+func famD3(maxLen int, yield func(f [][]int, n int) bool) bool {
+	cls := litSeqs(3, 1, maxLen)
+	units := litSeqs(3, 0, 2)
+	for _, c := range cls {
+		for _, us := range units {
+			var before, after [][]int
+			for _, u := range us {
+				before = append(before, []int{u})
+			}
+			before = append(before, append([]int{}, c...))
+			after = append(after, append([]int{}, c...))
+			for _, u := range us {
+				after = append(after, []int{u})
+			}
+			if !yield(before, 3) {
+				return false
+			}
+			if len(us) > 0 && !yield(after, 3) {
+				return false
+			}
+		}
+	}
+	return true
+}
+
 // famS3: n=3, the 26 literal sets of size 1..3, all sequences of m<=maxSeq clauses,
 // then all multisets for maxSeq<m<=maxMulti.
 func famS3(maxSeq, maxMulti int, yield func(f [][]int, n int) bool) bool {
